@@ -66,13 +66,60 @@ def hostile_case(rng, dll='j1939-21'):
     return bad, dict(frames=frames[-12:], n=n, dll=dll)
 
 
+def hostile_case22(rng):
+    """J1939-22: hostile FD frames while the stack also sends; afterwards nothing may be lost for good: tables empty after
+    the longest timeout (T5 = 3 s), both session pools full again, the full advertised concurrency usable"""
+    from .. import gen22
+    own, peer_a = rng.sample(range(1, 250), 2)
+    sc = net21.Scenario(C.REPO, rng.getrandbits(32), 2, dll='j1939-22', maxcmdt=[rng.choice([1, 2, 3, 255]), rng.choice([1, 2, 255])],
+                        addrs=[own, peer_a], latency=lambda r, a, b, f: r.choice([1, 1000]))
+    st = sc.stacks[0]
+    t0 = sc.w.now
+    bad, frames = [], []
+    n = rng.randrange(1, 61)
+    for _ in range(n):
+        sc.net.run(rng.choice([0, 0, 0, 1, 1000, 1000, 50000, 200000, 760000, 1260000]))
+        if rng.random() < 0.3:
+            sc.send(0, 0, 208 if rng.random() < 0.7 else 254, rng.choice([peer_a, 0x77, 0x77]), 6, rand_payload(rng, rng.choice([61, 100, 130])))
+        else:
+            cid, data = gen22.malformed_frame22(rng, own, [peer_a, 0x77])
+            frames.append((sc.w.now - t0, hex(cid), data))
+            sc.net.inject(0, cid, data, 0)
+    sc.net.run(3_100_000)
+    d = st.ecu.j1939_dll
+    if st.dead:
+        bad.append(f"background pass died: {type(st.dead).__name__}")
+    if sc.net.max_spins > 40:
+        bad.append(f"background thread busy-spins ({sc.net.max_spins} consecutive passes without sleeping)")
+    if not bad and (d._rcv_buffer or d._snd_buffer):
+        bad.append(f"sessions still open 3.1 s after the traffic: rcv {[hex(k) for k in d._rcv_buffer]} "
+                   f"snd {[(hex(k), b['state']) for k, b in d._snd_buffer.items()]}")
+    if not bad and (not all(d._J1939_22__rts_cts_session_list) or not all(d._J1939_22__bam_session_list)):
+        bad.append(f"session numbers lost for good: rts/cts pool {d._J1939_22__rts_cts_session_list} bam pool {d._J1939_22__bam_session_list} "
+                   "with no session open")
+    if not bad:
+        sc.deliv.clear(); sc.accepted.clear()
+        for k in range(8):
+            if not sc.send(0, 0, 208, peer_a, 6, rand_payload(rng, rng.choice([61, 130]))):
+                bad.append(f"after the traffic: destination-specific session {k + 1} of 8 refused")
+        for k in range(4):
+            if not sc.send(0, 0, 254, k, 6, rand_payload(rng, 70)):
+                bad.append(f"after the traffic: broadcast session {k + 1} of 4 refused")
+        sc.send(1, 0, 208, own, 6, rand_payload(rng, 100))
+        sc.net.run(30_000_000, stop=lambda: sc.tables_empty() and sc.net.quiet())
+        r = net21.check_exactly_once(sc)
+        if r:
+            bad.append("follow-up transfers: " + r)
+    return bad, dict(frames=frames[-12:], n=n, dll='j1939-22')
+
+
 def oracle(ctx, full):
     rng = random.Random(ctx.seed * 7907 + 7)
     n = ctx.n(150, 5000, full)
     findings, evals, distinct, samples = [], 0, set(), []
     for _ in range(n):
         sub = random.Random(rng.getrandbits(48))
-        bad, desc = hostile_case(sub)
+        bad, desc = hostile_case22(sub) if evals % 3 == 2 else hostile_case(sub)
         evals += 1
         distinct.add(C.struct_hash(desc))
         if len(samples) < 1:
@@ -84,7 +131,9 @@ def oracle(ctx, full):
                 rule="1..60 frames from the protocol-aware alphabet (TP.CM with every control byte, TP.DT, requests, claims, other PGNs; local, "
                      "foreign, global destinations; ordinary, own, 254/255 sources; boundary sizes/packets/sequence numbers; lengths 0..8) fed to a "
                      "real ECU with gaps from 0 to beyond each timeout while it also sends; then: pass alive, no spin, tables empty after 1.3 s, "
-                     "a periodic timer exactly on its grid, two follow-up transfers delivered")
+                     "a periodic timer exactly on its grid, two follow-up transfers delivered; every third case J1939-22: FD.TP.CM with every control "
+                     "code / session / size / segment / request code, FD.TP.DT, multi-PG and other frames while the stack sends; then: pass alive, "
+                     "tables empty after 3.1 s, both session pools full, 8 + 4 sessions at once accepted and delivered")
 
 
 def replay(ctx, path):
